@@ -201,6 +201,19 @@ pub fn mutate_message(rep: &mut Rep, c: &mut Ctx, msg: &[u8], signal: &[u8], roo
         }
         rep.stratum(format!("rootset|{n}"));
     }
+    // root sets in which the root occurs more than once (a window of recent roots after the tree returned to an
+    // earlier state): membership, not multiplicity, decides -> accepted
+    for (l, pattern) in [("root,root", vec![1u8, 1]), ("root,other,root", vec![1, 0, 1]), ("other,root,root,root", vec![0, 1, 1, 1]), ("root*8", vec![1; 8])] {
+        let mut rs = vec![];
+        for b in pattern.iter() {
+            rs.extend(enc_fr(&if *b == 1 { *root } else { *root + Fr::from(3u64) }));
+        }
+        rep.ev();
+        rep.stratum(format!("rootset-duplicates|{l}"));
+        if v_roots(c, &req, &rs) != V::True {
+            rep.violation("verify_with_roots:rejects-set-containing-the-root", json!({"case": label, "root_set": l}));
+        }
+    }
     // special root sets that do not contain the root: all-zero windows, small constants, duplicates of a wrong
     // root, the root's bytes at an unaligned offset, a partial trailing element
     {
